@@ -100,19 +100,25 @@ impl Method for PhoneticMethod {
                 };
             }
         };
+        // Length of the list which the caller's selection refers to.
+        let shown = self.suggestion.suggestions.len();
         self.buffer.push(character);
         let mut suggestion = self.create_suggestion(data, config);
 
         // Preserve user's selection if the keypress was a punctuation mark
         if let Suggestion::Full {
             selection: ref mut sel,
+            ref suggestions,
             ..
         } = suggestion
         {
+            // The new list can be shorter than the shown one ("cool" has ten candidates, "cool:"
+            // nine), then the selection is only kept if it is still inside the new list.
             if matches!(
                 character,
                 '.' | '?' | '!' | ',' | ':' | ';' | '-' | '_' | ')' | '}' | ']' | '\'' | '"'
-            ) {
+            ) && (suggestions.len() >= shown || usize::from(selection) < suggestions.len())
+            {
                 *sel = selection.into();
             }
         }
